@@ -356,6 +356,11 @@ func Generate(r *rand.Rand, profile string, concurrent bool, av Avoid) *Plan {
 	if !concurrent && profile == "chaos" && r.IntN(4) == 0 {
 		p.LiveShutdown = true
 	}
+	if concurrent && (profile == "growth" || profile == "chaos") && r.IntN(8) == 0 {
+		// bursts too: from the first such report on only the crash / progress oracles
+		// and C03's "no growth while a channel is idle or connecting" remain
+		p.LiveShutdown = true
+	}
 	if !concurrent && r.IntN(10) == 0 {
 		p.CloseEnd = true
 	}
@@ -397,6 +402,7 @@ func Generate(r *rand.Rand, profile string, concurrent bool, av Avoid) *Plan {
 				o.A = 3 + r.IntN(4) // three-address, two long lists (one the other's tail), server-name variant
 			}
 			o.B = r.IntN(2)
+			o.C = r.IntN(4) // what else the resolver state carries: 2 a service config that did not parse, 3 attributes
 			if r.IntN(8) == 0 && (profile == "chaos") {
 				o.F |= FlagEmpty
 			}
@@ -754,7 +760,7 @@ func Generate(r *rand.Rand, profile string, concurrent bool, av Avoid) *Plan {
 			tail = append(tail, Op{K: OpDone, A: -1, B: OutClientDE, N: st()})
 		}
 		if r.IntN(2) == 0 {
-			tail = append(tail, Op{K: OpResolver, A: r.IntN(3), N: st()})
+			tail = append(tail, Op{K: OpResolver, A: r.IntN(3), C: r.IntN(4), N: st()})
 		}
 		r.Shuffle(len(tail), func(a, b int) { tail[a], tail[b] = tail[b], tail[a] })
 		frag = append(frag, tail...)
@@ -773,6 +779,36 @@ func Generate(r *rand.Rand, profile string, concurrent bool, av Avoid) *Plan {
 			frag = append(frag, Op{K: OpSteps, A: 30}, Op{K: OpConn, A: -1, B: ConnProgress, N: st()}, Op{K: OpConn, A: -1, B: ConnProgress, N: st()}, Op{K: OpSteps, A: 40})
 		}
 		at := 3 + r.IntN(len(p.Ops)-3)
+		ops := append([]Op{}, p.Ops[:at]...)
+		ops = append(ops, frag...)
+		p.Ops = append(ops, p.Ops[at:]...)
+	}
+	// Directed concurrent fragment: a pool of one channel whose connection is
+	// being refreshed; a key is bound to it for the first time by a BIND call whose
+	// completion overlaps the replacement's READY report (the takeover, which
+	// carries the channel's keys over). After the burst the key is called.
+	if concurrent && (profile == "refresh" || profile == "affinity" || profile == "chaos") && p.Cfg.UMs > 0 && p.Cfg.UCalls > 0 && r.IntN(4) == 0 && len(p.Ops) > 4 {
+		k := r.IntN(nKeys)
+		st := func() int { return r.IntN(6) }
+		n := int(p.Cfg.UCalls)
+		p.Cfg.Min, p.Cfg.Max = 1, 1
+		frag := []Op{{K: OpConn, A: 0, B: ConnProgress}, {K: OpConn, A: 0, B: ConnProgress}, {K: OpSteps, A: 60}}
+		for c := 0; c < n; c++ {
+			frag = append(frag, Op{K: OpPick, B: MPlain, D: 1, E: 1, N: 20})
+		}
+		frag = append(frag, Op{K: OpSteps, A: 40}, Op{K: OpAdvance, E: int(p.Cfg.UMs) + 2})
+		for c := 0; c < n; c++ {
+			frag = append(frag, Op{K: OpDone, A: -1, B: OutClientDE, N: 30})
+		}
+		frag = append(frag, Op{K: OpSteps, A: 30}, Op{K: OpConn, A: -1, B: ConnProgress, N: 30},
+			Op{K: OpPick, B: MBind, Keys: []int{k}, N: 30})
+		end := []Op{{K: OpDone, A: -1, B: OutOK, Keys: []int{k}, N: st()}, {K: OpConn, A: -1, B: ConnProgress, N: st()}}
+		if r.IntN(2) == 0 {
+			end[0], end[1] = end[1], end[0]
+		}
+		frag = append(frag, end...)
+		frag = append(frag, Op{K: OpSteps, A: 40})
+		at := 1 + r.IntN(2)
 		ops := append([]Op{}, p.Ops[:at]...)
 		ops = append(ops, frag...)
 		p.Ops = append(ops, p.Ops[at:]...)
